@@ -6,7 +6,7 @@ from ..loader import AnalysisError, norm, walk_shallow
 from ..cfg import build_cfg, node_calls
 from ..flow import Flow, NONE, NOTNONE, TRUE, FALSE, TRUTHY, FALSY, TOP, const, is_const, valuations, path_key
 from ..inter import Inter, InterFlow
-from ..util import callee_name, all_calls, arg, need, single_def, names_in, assignments_to
+from ..util import callee_name, all_calls, arg, need, single_def, names_in, assignments_to, sym_expand
 
 CORE = "xyzpy.plot.core"
 MPL = "xyzpy.plot.plotter_matplotlib"
@@ -457,40 +457,72 @@ def c17_data_rules(ctx, rid_roles, rid_mask, rid_lock, rid_color):
     need(cl and cn, "anchor lost: calc_line_colors / calc_color_norm")
     ctx.touch(cl), ctx.touch(cn)
     g = build_cfg(cl.node)
+    def gshape(e):
+        """(element with the loop variable renamed to `_`, iterable) of a one-loop generator / list comprehension."""
+        if isinstance(e, (ast.GeneratorExp, ast.ListComp)) and len(e.generators) == 1 and isinstance(e.generators[0].target, ast.Name) and not e.generators[0].ifs:
+            v = e.generators[0].target.id
+            class Rn(ast.NodeTransformer):
+                def visit_Name(self, n):
+                    return ast.copy_location(ast.Name(id="_", ctx=n.ctx), n) if n.id == v else n
+            return norm(Rn().visit(ast.parse(ast.unparse(e.elt), mode="eval").body)), norm(e.generators[0].iter)
+        return None
     for cval, src in ((NOTNONE, "self._c_cols"), (NONE, "self._z_vals")):
         fl = Flow(g, {"self.c_coo": cval}).run()
         rv = [n for n in g.nodes if n.id in fl.visited and n.kind == "stmt" and isinstance(n.ast, ast.Assign) and norm(n.ast.targets[0]) == "rvals"]
-        good = [n for n in rv if norm(n.ast.value) == "(self._color_norm(z) for z in %s)" % src]
-        lin = [n for n in rv if "linspace" in norm(n.ast.value)]
+        need(rv, "anchor lost: `rvals` in calc_line_colors")
+        shapes = [(n, gshape(n.ast.value)) for n in rv]
+        good = [n for n, sh in shapes if sh == ("self._color_norm(_)", src)]
+        lin = [n for n, sh in shapes if sh is None and "linspace" in norm(n.ast.value)]
+        wrong = [n for n, sh in shapes if sh is not None and sh != ("self._color_norm(_)", src)]
         if good and len(good) + len(lin) == len(rv):
             rc.ok("c_coo %s: relative values = norm(v) for v in %s, in series order" % ("given" if cval == NOTNONE else "absent", src))
+        elif wrong or not good:
+            rc.bad(ctx.finding(rid_color, cl, (wrong or rv)[0].ast, "with c_coo %s the colour values are %s, not the norm applied to each of %s" % ("given" if cval == NOTNONE else "absent", [norm(n.ast.value) for n in rv], src), construct="rvals " + src), "rvals %s" % src)
         else:
-            rc.bad(ctx.finding(rid_color, cl, rv[0].ast if rv else cl.node, "with c_coo %s the colour values are %s, not the norm applied to each of %s" % ("given" if cval == NOTNONE else "absent", [norm(n.ast.value) for n in rv], src), construct="rvals " + src), "rvals %s" % src)
+            raise AnalysisError("idiom changed: rvals in calc_line_colors: %s" % [norm(n.ast.value) for n in rv])
+    over_rvals = [(n, gshape(n.ast.value)) for n in g.nodes if n.kind == "stmt" and isinstance(n.ast, ast.Assign) and gshape(n.ast.value) and gshape(n.ast.value)[1] == "rvals"]
     cols = [n for n in g.nodes if n.kind == "stmt" and isinstance(n.ast, ast.Assign) and norm(n.ast.targets[0]) == "self._cols"]
-    if cols and norm(cols[0].ast.value) == "(self.cmap(rval) for rval in rvals)":
-        rc.ok("colours = cmap(rval) for each normalised value")
+    need(cols, "anchor lost: self._cols in calc_line_colors")
+    if len(over_rvals) == 1 and over_rvals[0][1][0] == "self.cmap(_)":
+        t = norm(over_rvals[0][0].ast.targets[0])
+        last = max(cols, key=lambda n: n.ast.lineno)
+        if t == "self._cols" or any(norm(x) == t for x in ast.walk(last.ast.value)):
+            rc.ok("colours = cmap(rval) for each normalised value")
+        else:
+            rc.bad(ctx.finding(rid_color, cl, last.ast, "self._cols is not built from the colour map applied to the normalised values", construct="cols"), "cols")
+    elif over_rvals:
+        rc.bad(ctx.finding(rid_color, cl, over_rvals[0][0].ast, "colours are not the colour map applied to the normalised values", construct="cols"), "cols")
     else:
-        rc.bad(ctx.finding(rid_color, cl, cols[0].ast if cols else cl.node, "colours are not the colour map applied to the normalised values", construct="cols"), "cols")
+        raise AnalysisError("idiom changed: no comprehension over rvals in calc_line_colors")
     coo = single_def(cn, "coo")
-    if coo and norm(coo[1]) == "self.z_coo if self.c_coo is None else self.c_coo":
+    need(coo, "anchor lost: `coo` in calc_color_norm")
+    ce = coo[1]
+    verdict = None
+    if isinstance(ce, ast.IfExp) and isinstance(ce.test, ast.Compare) and len(ce.test.ops) == 1 and norm(ce.test.comparators[0]) == "None" and norm(ce.test.left) == "self.c_coo":
+        if_none, if_some = (ce.body, ce.orelse) if isinstance(ce.test.ops[0], ast.Is) else (ce.orelse, ce.body) if isinstance(ce.test.ops[0], ast.IsNot) else (None, None)
+        if if_none is not None:
+            verdict = norm(if_none) == "self.z_coo" and norm(if_some) == "self.c_coo"
+    if verdict is True:
         rc.ok("the norm's limits come from the colour quantity (c if given else z)")
+    elif verdict is False or norm(ce) in ("self.z_coo", "self.c_coo"):
+        rc.bad(ctx.finding(rid_color, cn, ce, "the colour norm's limits are not taken from `z_coo if c_coo is None else c_coo`", construct="norm-quantity"), "norm quantity")
     else:
-        rc.bad(ctx.finding(rid_color, cn, coo[1] if coo else cn.node, "the colour norm's limits are not taken from `z_coo if c_coo is None else c_coo`", construct="norm-quantity"), "norm quantity")
-    ors = [b for b in walk_shallow(cn.node) if isinstance(b, ast.BoolOp) and isinstance(b.op, ast.Or) and any(w in norm(b.values[0]) for w in ("zlims", "vmin", "vmax", "_zmin", "_zmax"))]
-    ors += [n.value for n in walk_shallow(cn.node) if isinstance(n, ast.Assign) and norm(n.targets[0]) in ("self._zmin", "self._zmax", "self.vmin", "self.vmax")
-            and isinstance(n.value, ast.BoolOp) and isinstance(n.value.op, ast.Or) and n.value not in ors]
+        raise AnalysisError("idiom changed: colour quantity in calc_color_norm: %s" % norm(ce))
+    LIM = ("zlims", "vmin", "vmax", "zmin", "zmax")
+    ors = [b for b in ast.walk(cn.node) if isinstance(b, ast.BoolOp) and isinstance(b.op, ast.Or) and any(w in norm(b.values[0]) for w in LIM)]
+    truthy = [t.test for t in ast.walk(cn.node) if isinstance(t, (ast.If, ast.IfExp)) and
+              (isinstance(t.test, (ast.Name, ast.Attribute, ast.Subscript)) or (isinstance(t.test, ast.UnaryOp) and isinstance(t.test.op, ast.Not) and isinstance(t.test.operand, (ast.Name, ast.Attribute, ast.Subscript))))
+              and any(w in norm(t.test) for w in LIM)]
     if ors:
         rc.bad(ctx.finding(rid_color, cn, ors[0], "`%s` treats a requested limit of 0 as 'not given' (falsy test instead of `is None`): colours and colour bar use the data extreme instead of the requested 0" % norm(ors[0]), construct="limit-or"), "limits is None")
+    elif truthy:
+        rc.bad(ctx.finding(rid_color, cn, truthy[0], "`%s` treats a requested limit of 0 as 'not given'" % norm(truthy[0]), construct="limit-falsy"), "limits is None")
     else:
-        tests = [t for t in walk_shallow(cn.node) if isinstance(t, ast.If) and isinstance(t.test, ast.Compare) and isinstance(t.test.ops[0], ast.Is) and norm(t.test.comparators[0]) == "None"]
+        tests = [t for t in ast.walk(cn.node) if isinstance(t, ast.Compare) and len(t.ops) == 1 and isinstance(t.ops[0], (ast.Is, ast.IsNot)) and norm(t.comparators[0]) == "None" and any(w in norm(t.left) for w in LIM)]
         if len(tests) >= 4:
             rc.ok("absent limits are detected with `is None` (a limit of 0 is honoured)")
         else:
-            truthy = [t for t in walk_shallow(cn.node) if isinstance(t, ast.If) and (norm(t.test) in ("not self._zmin", "not self._zmax", "not self.vmin", "not self.vmax"))]
-            if truthy:
-                rc.bad(ctx.finding(rid_color, cn, truthy[0].test, "`%s` treats a requested limit of 0 as 'not given'" % norm(truthy[0].test), construct="limit-falsy"), "limits is None")
-            else:
-                raise AnalysisError("idiom changed: limit defaulting in calc_color_norm")
+            raise AnalysisError("idiom changed: limit defaulting in calc_color_norm")
     return rr
 
 
@@ -609,13 +641,18 @@ def c18_rules(ctx):
     # ---- R4 panel orientation
     r4 = ctx.rule("C18.R4", "panel placement: axs[i_ax, j_ax] with i from the row mapping and j from the column mapping", floor=4)
     for f in (pl, ph):
-        ia = [norm(v) for _, v in assignments_to(f, "i_ax") if v is not None]
-        ja = [norm(v) for _, v in assignments_to(f, "j_ax") if v is not None]
-        ax = [norm(v) for _, v in assignments_to(f, "ax") if v is not None]
-        if sorted(ia) == ["0", "loc[self.row]"] and sorted(ja) == ["0", "loc[self.col]"] and ax == ["self.axs[i_ax, j_ax]"]:
-            r4.ok("%s: i_ax <- loc[row], j_ax <- loc[col], ax = axs[i_ax, j_ax]" % f.name)
-        else:
-            r4.bad(ctx.finding("C18.R4", f, f.node, "%s: panel indices are i_ax=%s, j_ax=%s, ax=%s; expected loc[self.row] / loc[self.col] / self.axs[i_ax, j_ax]: slices are drawn in the wrong panel" % (f.name, ia, ja, ax), construct="panel-index " + f.name), "%s panels" % f.name)
+        axd = [v for _, v in assignments_to(f, "ax") if v is not None]
+        need(len(axd) == 1, "anchor lost: the `ax` a slice is drawn on in %s" % f.name)
+        for rv, cv in ((NOTNONE, NOTNONE), (NOTNONE, NONE), (NONE, NOTNONE), (NONE, NONE)):
+            got = sym_expand(ctx, f, axd[0], {"self.row": rv, "self.col": cv}, stop=("loc",))
+            want = "self.axs[%s, %s]" % ("loc[self.row]" if rv == NOTNONE else "0", "loc[self.col]" if cv == NOTNONE else "0")
+            tag = "row %s, col %s" % ("mapped" if rv == NOTNONE else "absent", "mapped" if cv == NOTNONE else "absent")
+            if got == want:
+                r4.ok("%s, %s: ax = %s" % (f.name, tag, want))
+            elif got.startswith("self.axs[") and set(names_in(ast.parse(got, mode="eval").body)) <= {"self", "loc"}:
+                r4.bad(ctx.finding("C18.R4", f, axd[0], "%s: with %s a slice is drawn on `%s`; expected `%s`: slices are drawn in the wrong panel" % (f.name, tag, got, want), construct="panel-index " + f.name), "%s panels" % f.name)
+            else:
+                raise AnalysisError("idiom changed: panel of a slice in %s is `%s`" % (f.name, got))
     sub = [c for c in ast.walk(I.node) if isinstance(c, ast.Call) and norm(c.func).endswith("subplots")]
     if sub and any('self.sizes["row"]' in norm(c).replace("'", '"') and norm(c).replace("'", '"').index('self.sizes["row"]') < norm(c).replace("'", '"').index('self.sizes["col"]') for c in sub if 'self.sizes["col"]' in norm(c).replace("'", '"')):
         r4.ok("subplots(sizes[row], sizes[col])")
@@ -649,11 +686,20 @@ def c18_rules(ctx):
     # ---- R7 domains are read after the dataset's index along the dimension was fixed
     r7 = ctx.rule("C18.R7", "init_mapped_dim records the dimension's coordinates after every re-indexing (sel(order), dropna) of the dataset along it", floor=1)
     g = build_cfg(imd.node)
-    reads = [n for n in g.nodes if n.kind == "stmt" and isinstance(n.ast, ast.Assign) and norm(n.ast.targets[0]) == "self.domains[name]"]
-    need(len(reads) == 1, "anchor lost: self.domains[name] assignment")
-    R = reads[0]
-    if norm(R.ast.value) != "self.ds[dim].values":
-        r7.bad(ctx.finding("C18.R7", imd, R.ast, "domains[name] is `%s`, not the dataset's current coordinate values" % norm(R.ast.value), construct="domains-source"), "domains source")
+    stores = [n for n in g.nodes if n.kind == "stmt" and isinstance(n.ast, ast.Assign) and norm(n.ast.targets[0]) == "self.domains[name]"]
+    need(len(stores) == 1, "anchor lost: self.domains[name] assignment")
+    got = sym_expand(ctx, imd, stores[0].ast.value, {"dim": NOTNONE})
+    # the statement at which the coordinate values are actually read
+    R = stores[0]
+    if isinstance(R.ast.value, ast.Name):
+        src = [n for n in g.nodes if n.kind == "stmt" and isinstance(n.ast, ast.Assign) and norm(n.ast.targets[0]) == R.ast.value.id]
+        need(len(src) == 1, "idiom changed: alias of the coordinate values in init_mapped_dim")
+        R = src[0]
+    if got != "self.ds[dim].values":
+        if "self.ds" in got or "dim" in got or "order" in got:
+            r7.bad(ctx.finding("C18.R7", imd, stores[0].ast, "domains[name] is `%s`, not the dataset's current coordinate values" % got, construct="domains-source"), "domains source")
+        else:
+            raise AnalysisError("idiom changed: domains[name] = %s" % got)
     rebinds = [n for n in g.nodes if n.kind == "stmt" and isinstance(n.ast, ast.Assign) and norm(n.ast.targets[0]) == "self.ds" and any(k in norm(n.ast.value) for k in (".sel(", ".dropna(", ".isel(", ".drop_sel(", ".sortby(", ".reindex("))]
     late = [n for n in rebinds if n.id in g.reachable(start=R.id) and n.id != R.id]
     if late:
@@ -666,6 +712,7 @@ def c18_rules(ctx):
     sz = [n for n in g.nodes if n.kind == "stmt" and isinstance(n.ast, ast.Assign) and norm(n.ast.targets[0]) == "self.sizes[name]" and "domains" in norm(n.ast.value)]
     if sz and norm(sz[0].ast.value) == "len(self.domains[name])":
         r7.ok("sizes[name] = len(domains[name])")
+
 
     # ---- R8 mask polarity
     r8 = ctx.rule("C18.R8", "join_across_missing: truthy -> x and y filtered by the both-non-null mask; falsy -> unfiltered (NaNs stay as gaps)", floor=2)
